@@ -217,6 +217,8 @@ def upsert_routes(app, routes, routes_path, route, primary_key):
         return
 
     with open(routes_path, "a") as f:
+        # the file does not end with a newline: never glue `@app.post(...)` onto its last statement
+        f.write("\n\n")
         f.write(
             "\n\n".join(
                 map(
